@@ -1257,40 +1257,56 @@ let ch_open =
 let ch_close =
   Zpos (XI (XO (XI (XI (XI (XO XH))))))
 
-(** val parse_ast : z list -> cmd list -> cmd list list -> cmd list option **)
+(** val parse_seg : nat -> z list -> (cmd list * z list) option **)
 
-let rec parse_ast cs cur0 stack =
-  match cs with
-  | [] -> (match stack with
-           | [] -> Some (rev cur0)
-           | _ :: _ -> None)
-  | c :: cs' ->
-    if Z.eqb c ch_plus
-    then parse_ast cs' (Inc :: cur0) stack
-    else if Z.eqb c ch_minus
-         then parse_ast cs' (Dec :: cur0) stack
-         else if Z.eqb c ch_lt
-              then parse_ast cs' (Left :: cur0) stack
-              else if Z.eqb c ch_gt
-                   then parse_ast cs' (Right :: cur0) stack
-                   else if Z.eqb c ch_dot
-                        then parse_ast cs' (Out :: cur0) stack
-                        else if Z.eqb c ch_comma
-                             then parse_ast cs' (In :: cur0) stack
-                             else if Z.eqb c ch_open
-                                  then parse_ast cs' [] (cur0 :: stack)
-                                  else if Z.eqb c ch_close
-                                       then (match stack with
-                                             | [] -> None
-                                             | parent :: stack' ->
-                                               parse_ast cs' ((Loop
-                                                 (rev cur0)) :: parent) stack')
-                                       else parse_ast cs' cur0 stack
+let rec parse_seg fuel cs =
+  match fuel with
+  | O -> None
+  | S f ->
+    (match cs with
+     | [] -> Some ([], [])
+     | c :: r ->
+       if Z.eqb c ch_close
+       then Some ([], cs)
+       else if Z.eqb c ch_open
+            then (match parse_seg f r with
+                  | Some p ->
+                    let (body, after) = p in
+                    (match after with
+                     | [] -> None
+                     | _ :: r2 ->
+                       (match parse_seg f r2 with
+                        | Some p0 ->
+                          let (more, a) = p0 in
+                          Some (((Loop body) :: more), a)
+                        | None -> None))
+                  | None -> None)
+            else (match parse_seg f r with
+                  | Some p ->
+                    let (more, a) = p in
+                    if Z.eqb c ch_plus
+                    then Some ((Inc :: more), a)
+                    else if Z.eqb c ch_minus
+                         then Some ((Dec :: more), a)
+                         else if Z.eqb c ch_lt
+                              then Some ((Left :: more), a)
+                              else if Z.eqb c ch_gt
+                                   then Some ((Right :: more), a)
+                                   else if Z.eqb c ch_dot
+                                        then Some ((Out :: more), a)
+                                        else if Z.eqb c ch_comma
+                                             then Some ((In :: more), a)
+                                             else Some (more, a)
+                  | None -> None))
 
 (** val ast_of_source : z list -> cmd list option **)
 
 let ast_of_source cs =
-  parse_ast cs [] []
+  match parse_seg (S (length cs)) cs with
+  | Some p0 -> let (p, l) = p0 in (match l with
+                                   | [] -> Some p
+                                   | _ :: _ -> None)
+  | None -> None
 
 (** val balanced_from : z list -> nat -> bool **)
 
